@@ -27,10 +27,13 @@ type caComp struct {
 	ed     bool
 }
 
+// scriptedNow is the clock reading handed to cache.Now (set from the op line).
+var scriptedNow int64
+
 func init() {
 	c := &caComp{}
 	components["ca"] = c
-	cache.Now = func() time.Time { return time.Unix(0, c.now) }
+	cache.Now = func() time.Time { return time.Unix(0, scriptedNow) }
 }
 
 // ---------------------------------------------------------------- running
@@ -162,27 +165,27 @@ func (c *caComp) Run(args []string) string {
 		c.c.Add(decStr(args[1]))
 		return "ok"
 	case "remove":
-		c.now = atoi(args[2])
+		scriptedNow = atoi(args[2])
 		c.c.Remove(decStr(args[1]))
 		return bracket(c.events)
 	case "reset":
-		c.now = atoi(args[2])
+		scriptedNow = atoi(args[2])
 		c.c.Reset(decStr(args[1]))
 		return sortedBracket(c.events)
 	case "sync":
-		c.now = atoi(args[2])
+		scriptedNow = atoi(args[2])
 		c.c.Sync(decStr(args[1]))
 		return bracket(c.events)
 	case "connect":
-		c.now = atoi(args[2])
+		scriptedNow = atoi(args[2])
 		c.c.Connect(decStr(args[1]))
 		return bracket(c.events)
 	case "connerr":
-		c.now = atoi(args[3])
+		scriptedNow = atoi(args[3])
 		c.c.ConnectError(decStr(args[1]), fmt.Errorf("%s", decStr(args[2])))
 		return bracket(c.events)
 	case "upd":
-		c.now = atoi(args[1])
+		scriptedNow = atoi(args[1])
 		n, ok := c.notis[args[2]]
 		if !ok {
 			n = parseNotiToken(args[2]).proto(c.pool)
@@ -205,7 +208,7 @@ func (c *caComp) Run(args []string) string {
 		}
 		return out
 	case "updmeta":
-		c.now = atoi(args[1])
+		scriptedNow = atoi(args[1])
 		c.c.UpdateMetadata()
 		return sortedBracket(c.events)
 	case "query":
